@@ -226,6 +226,8 @@ def drive(stats: Stats, make_test, seed: int, rounds: int = 3) -> None:
                     raise
         stats.violations.append(v.as_dict())
         stats.ignore_keys.add(v.key)
+        if getattr(stats, "fatal", False):
+            break   # every further case would hit the same wall (e.g. a livelock while the rig is built)
     stats.new_round()
 
 
